@@ -45,6 +45,14 @@ type caseC17 struct {
 	// DeadStderr: the program's stderr is a pipe whose reader has gone away (a supervisor restarted, `prog 2>&1 | head -1`): a
 	// hashing call that writes anything to it is killed by SIGPIPE. The result is read from stdout.
 	DeadStderr bool `json:"dead_stderr,omitempty"`
+	// Where the program makes the call: main (default), init (during package initialisation), goroutine, locked (a goroutine
+	// wired to its OS thread), finalizer (the runtime's finalizer goroutine).
+	Where string `json:"where,omitempty"`
+	// Outage: the program starts during an entropy outage: crypto/rand.Reader fails while it makes its first call (the panic,
+	// if any, is recovered), then works again, and the call is repeated: the second call must return the result.
+	Outage bool `json:"outage,omitempty"`
+	// IdleMs: the program makes the call, stays idle for this long, and makes the call again (thorough tier: more than two minutes)
+	IdleMs int `json:"idle_ms,omitempty"`
 }
 
 var importPool = []string{"fmt", "os", "strings", "encoding/hex", "math/big", "crypto/rand", "crypto/sha512", "crypto/md5", "hash/fnv",
@@ -105,7 +113,11 @@ func init() {
 const mainTemplate = `package main
 
 import (
+	"crypto/rand"
+	"errors"
 	"os"
+	"runtime"
+	"time"
 
 	secp "github.com/bytemare/secp256k1"
 %s)
@@ -122,20 +134,94 @@ func reject(fn string) {
 	}
 }
 
-func main() {
-	msg := []byte{%s}
-	dst := []byte{%s}
+var (
+	msg = []byte{%s}
+	dst = []byte{%s}
+)
+
+type outage struct{}
+
+func (outage) Read([]byte) (int, error) { return 0, errors.New("no entropy") }
+
+func firstCallDuringOutage() {
+	saved := rand.Reader
+	rand.Reader = outage{}
+	defer func() {
+		rand.Reader = saved
+		_ = recover()
+	}()
+	switch %q {
+	case "HashToGroup":
+		_ = secp.HashToGroup(msg, dst).Encode()
+	case "EncodeToGroup":
+		_ = secp.EncodeToGroup(msg, dst).Encode()
+	default:
+		_ = secp.HashToScalar(msg, dst).Encode()
+	}
+}
+
+func compute() []byte {
+	if %v {
+		firstCallDuringOutage()
+	}
+	if idle := %d; idle > 0 {
+		_ = secp.HashToScalar(msg, dst).Encode()
+		_ = secp.HashToGroup(msg, dst).Encode()
+		time.Sleep(time.Duration(idle) * time.Millisecond)
+	}
 	for i := 0; i < %d; i++ {
 		reject([]string{"HashToGroup", "EncodeToGroup", "HashToScalar"}[i%%3])
 	}
-	var out []byte
 	switch %q {
 	case "HashToGroup":
-		out = secp.HashToGroup(msg, dst).Encode()
+		return secp.HashToGroup(msg, dst).Encode()
 	case "EncodeToGroup":
-		out = secp.EncodeToGroup(msg, dst).Encode()
+		return secp.EncodeToGroup(msg, dst).Encode()
 	default:
-		out = secp.HashToScalar(msg, dst).Encode()
+		return secp.HashToScalar(msg, dst).Encode()
+	}
+}
+
+var where = %q
+
+// during package initialisation
+var initOut = func() []byte {
+	if where == "init" {
+		return compute()
+	}
+	return nil
+}()
+
+type big64 [64]byte
+
+func main() {
+	var out []byte
+	ch := make(chan []byte, 1)
+	switch where {
+	case "init":
+		out = initOut
+	case "locked": // on a goroutine wired to its OS thread
+		go func() {
+			runtime.LockOSThread()
+			ch <- compute()
+		}()
+		out = <-ch
+	case "goroutine":
+		go func() { ch <- compute() }()
+		out = <-ch
+	case "finalizer": // on the finalizer goroutine
+		obj := new(big64)
+		runtime.SetFinalizer(obj, func(*big64) { ch <- compute() })
+		obj = nil
+		for out == nil {
+			runtime.GC()
+			select {
+			case out = <-ch:
+			case <-time.After(10 * time.Millisecond):
+			}
+		}
+	default:
+		out = compute()
 	}
 	const digits = "0123456789abcdef"
 	b := make([]byte, 0, 2*len(out))
@@ -145,6 +231,14 @@ func main() {
 	os.Stdout.WriteString("RESULT=" + string(b) + "\n") // (stdout: stderr may be a dead pipe)
 }
 `
+
+// idleLong is the long idle period: more than two minutes in the thorough tier, a second otherwise.
+func idleLong() int {
+	if os.Getenv("VERIF_TIER") == "thorough" {
+		return 125000
+	}
+	return 1000
+}
 
 func byteList(b []byte) string {
 	var sb strings.Builder
@@ -168,7 +262,7 @@ func runC17(c caseC17, o *gen.Obs) error {
 	o.ClassIf(otherLinks, "sha256-linked-by-others")
 	o.ClassIf(c.Wrap, "registry-replaced")
 	o.ClassIf(c.Rejected > 0, "after-rejected-calls")
-	o.NonTrivialIf(!otherLinks || c.Wrap || c.Rejected > 0 || c.SingleP || c.Arch386 || c.DeadStderr)
+	o.NonTrivialIf(!otherLinks || c.Wrap || c.Rejected > 0 || c.SingleP || c.Arch386 || c.DeadStderr || c.Where != "" || c.Outage || c.IdleMs > 0)
 
 	dir, err := os.MkdirTemp("", "verif-c17-")
 	if err != nil {
@@ -179,7 +273,13 @@ func runC17(c caseC17, o *gen.Obs) error {
 	for _, p := range imports {
 		fmt.Fprintf(&imp, "\t_ %q\n", p)
 	}
-	src := fmt.Sprintf(mainTemplate, imp.String(), byteList(msg), byteList(dst), c.Rejected, c.Fn)
+	where := c.Where
+	if where == "" {
+		where = "main"
+	}
+	o.Class("where:" + where)
+	o.ClassIf(c.Outage, "entropy-outage-at-start")
+	src := fmt.Sprintf(mainTemplate, imp.String(), byteList(msg), byteList(dst), c.Fn, c.Outage, c.IdleMs, c.Rejected, c.Fn, where)
 	gomod := fmt.Sprintf("module verifprog\n\ngo 1.22.2\n\nrequire github.com/bytemare/secp256k1 v0.0.0\n\nreplace github.com/bytemare/secp256k1 => %s\n", repoDir())
 	if err := os.WriteFile(filepath.Join(dir, "main.go"), []byte(src), 0o644); err != nil {
 		return &gen.Inconclusive{Msg: err.Error()}
@@ -202,7 +302,7 @@ func runC17(c caseC17, o *gen.Obs) error {
 		// a build failure of the generated program is a harness/toolchain problem or a tree that does not compile
 		return &gen.Inconclusive{Msg: fmt.Sprintf("go build failed: %v\n%s", err, out)}
 	}
-	ctx, cancel := context.WithTimeout(context.Background(), 20*time.Second)
+	ctx, cancel := context.WithTimeout(context.Background(), 20*time.Second+time.Duration(c.IdleMs)*time.Millisecond)
 	defer cancel()
 	run := exec.CommandContext(ctx, filepath.Join(dir, "prog"))
 	var stdout, stderr bytes.Buffer
@@ -275,6 +375,8 @@ var c17 = gen.Register(&gen.Check[caseC17]{
 		c.SingleP = gen.Chance(t, "singleP", 1, 3)
 		c.Arch386 = gen.Chance(t, "arch386", 1, 4)
 		c.DeadStderr = gen.Chance(t, "deadStderr", 1, 4)
+		c.Where = []string{"", "", "init", "goroutine", "locked", "finalizer"}[gen.Pick(t, "where", 6)]
+		c.Outage = gen.Chance(t, "outage", 1, 4)
 		if gen.Chance(t, "rejected", 1, 3) {
 			c.Rejected = rapid.SampledFrom([]int{1000, 70, 3, 300}).Draw(t, "nrej")
 		}
@@ -307,6 +409,10 @@ var c17 = gen.Register(&gen.Check[caseC17]{
 			{Fn: "HashToScalar", Msg: "616263", Dst: dst, SingleP: true},
 			{Fn: "HashToGroup", Msg: "616263", Dst: "01", DeadStderr: true}, {Fn: "HashToScalar", Msg: "616263", Dst: dst, DeadStderr: true},
 			{Fn: "EncodeToGroup", Msg: "", Dst: hex.EncodeToString(bytes.Repeat([]byte{'x'}, 300)), DeadStderr: true},
+			{Fn: "HashToGroup", Msg: "616263", Dst: dst, IdleMs: 1200}, {Fn: "HashToScalar", Msg: "616263", Dst: hex.EncodeToString(bytes.Repeat([]byte{'i'}, 300)), IdleMs: idleLong()},
+			{Fn: "HashToGroup", Msg: "616263", Dst: dst, Outage: true}, {Fn: "EncodeToGroup", Msg: "616263", Dst: dst, Outage: true}, {Fn: "HashToScalar", Msg: "616263", Dst: dst, Outage: true},
+			{Fn: "HashToGroup", Msg: "616263", Dst: dst, Where: "init"}, {Fn: "HashToScalar", Msg: "616263", Dst: dst, Where: "finalizer"},
+			{Fn: "EncodeToGroup", Msg: "616263", Dst: dst, Where: "locked", SingleP: true}, {Fn: "HashToGroup", Msg: "", Dst: dst, Where: "goroutine"},
 			{Fn: "HashToGroup", Msg: "616263", Dst: dst, Arch386: true}, {Fn: "HashToScalar", Msg: "616263", Dst: dst, Arch386: true},
 			{Fn: "EncodeToGroup", Msg: "616263", Dst: dst, Rejected: 1000},
 			boundaryProgram("HashToGroup", 256, 0), boundaryProgram("HashToScalar", 256, 1), boundaryProgram("EncodeToGroup", 512, 0),
